@@ -472,6 +472,9 @@ func plan(ts []target, thorough bool) []histSpec {
 		for k := 0; k < rep(20, 300); k++ {
 			add(t, shMutated, 0, []int{500, 5000}[k%2])
 		}
+		for k := 0; k < rep(6, 60); k++ {
+			add(t, shTruncSweep, 0, 6000)
+		}
 		for _, sh := range []string{shEndlessStart, shEndlessMiddle} {
 			add(t, sh, 16, long)
 			add(t, sh, 1400, rep(20000, long))
